@@ -3,7 +3,9 @@ package group
 // C19 (validators): validGroupName / validUsername vs the predicate of the statement.
 
 import (
+	"crypto/sha256"
 	"encoding/base64"
+	"encoding/hex"
 	"encoding/json"
 	"fmt"
 	"net"
@@ -197,3 +199,127 @@ func TestVerif_C19_AdmittedUsernames(t *testing.T) {
 		c19uRec.ClassIf(err == nil && strings.HasPrefix(route, "jwt"), "admitted_via_signed_token")
 	})
 }
+
+// ---------------------------------------------------------------------------------------------
+// The description store behind the API: every exported lookup / update / delete with a hostile group name,
+// against a directory tree with a sentinel description next to (outside) the groups directory.
+
+var c19dRec = verifkit.New("TestVerif_C19_DescriptionStore",
+	"group names over the hostile alphabet (with components that name real files: a sentinel description with auto-subgroups just outside the groups directory, one inside) "+
+		"handed to every exported function of the description store (GetDescription, GetSanitisedDescription, GetDescriptionTag, GetUsers, GetSanitisedUser, UpdateUser, "+
+		"SetUserPassword, SetKeys, DeleteUser, UpdateDescription, DeleteDescription); oracle: nothing is ever read from the sentinel (marker string in any returned value) and the tree outside the groups directory is unchanged (hash); "+
+		"invalid names that these internal functions normalise to a file inside the directory are counted, not judged; non-trivial = invalid name whose components lead to the sentinel; distinct by name+function")
+
+var c19dOnce sync.Once
+var c19dRoot string
+
+func TestVerif_C19_DescriptionStore(t *testing.T) {
+	defer c19dRec.Flush()
+	c19dOnce.Do(func() {
+		c19dRoot = verifkit.Scratch("c19d")
+	})
+	root := c19dRoot
+	rapid.Check(t, func(t *rapid.T) {
+		// fresh tree per case: the functions under test may write
+		os.RemoveAll(filepath.Join(root, "tree"))
+		gdir := filepath.Join(root, "tree", "groups")
+		os.MkdirAll(filepath.Join(gdir, "inside"), 0o755)
+		os.MkdirAll(filepath.Join(root, "tree", "data"), 0o755)
+		os.MkdirAll(filepath.Join(root, "tree", "outside"), 0o755)
+		sentinel := `{"displayName":"OUTSIDE-SENTINEL","auto-subgroups":true,"users":{"x":{"password":"OUTSIDE-SENTINEL-PW","permissions":"op"}}}`
+		os.WriteFile(filepath.Join(root, "tree", "outside.json"), []byte(sentinel), 0o600)
+		os.WriteFile(filepath.Join(root, "tree", "outside", "deep.json"), []byte(sentinel), 0o600)
+		os.WriteFile(filepath.Join(gdir, "inside.json"), []byte(`{"displayName":"inside","auto-subgroups":true,"users":{"x":{"password":"pw","permissions":"op"}}}`), 0o600)
+		os.WriteFile(filepath.Join(root, "tree", "data", "config.json"), []byte(`{"writableGroups":true}`), 0o600)
+		Directory = gdir
+		DataDirectory = filepath.Join(root, "tree", "data")
+		outsideHash := func() string {
+			h := sha256.New()
+			for _, f := range []string{"outside.json", "outside/deep.json", "data/config.json"} {
+				b, err := os.ReadFile(filepath.Join(root, "tree", f))
+				fmt.Fprintf(h, "%s|%v|%x|", f, err == nil, b)
+			}
+			ents, _ := os.ReadDir(filepath.Join(root, "tree"))
+			for _, e := range ents {
+				fmt.Fprintf(h, "%s|", e.Name())
+			}
+			ents, _ = os.ReadDir(filepath.Join(root, "tree", "outside"))
+			for _, e := range ents {
+				fmt.Fprintf(h, "%s|", e.Name())
+			}
+			return hex.EncodeToString(h.Sum(nil))
+		}
+		seg := rapid.OneOf(rapid.SampledFrom([]string{"..", "..", ".", "", "outside", "outside", "inside", "room", "deep", "groups", "a", "a\\b", "\x00", "%2e%2e", "..."}), rapid.StringMatching(`[a-b./\\%]{0,3}`))
+		name := strings.Join(rapid.SliceOfN(seg, 1, 5).Draw(t, "segs"), "/")
+		if rapid.IntRange(0, 5).Draw(t, "towardsSentinel") == 0 {
+			name = rapid.SampledFrom([]string{"../outside", "../outside/room", "../outside/deep", "a/../../outside/room", "inside/../../outside/room", "../outside/deep/room", "/../outside/room",
+				"..//outside/room", "../groups/inside", "inside/room", "inside"}).Draw(t, "aimed")
+		}
+		valid := refValidGroup(name)
+		before := outsideHash()
+		fns := []string{"GetDescription", "GetSanitisedDescription", "GetDescriptionTag", "GetUsers", "GetSanitisedUser", "UpdateUser", "SetUserPassword", "SetKeys", "DeleteUser", "UpdateDescription", "DeleteDescription"}
+		fn := rapid.SampledFrom(fns).Draw(t, "function")
+		var err error
+		leak := ""
+		see := func(v any) {
+			b, _ := json.Marshal(v)
+			if strings.Contains(string(b), "OUTSIDE-SENTINEL") {
+				leak = string(b)
+			}
+		}
+		switch fn {
+		case "GetDescription":
+			var d *Description
+			d, err = GetDescription(name)
+			see(d)
+		case "GetSanitisedDescription":
+			var d *Description
+			d, _, err = GetSanitisedDescription(name)
+			see(d)
+		case "GetDescriptionTag":
+			_, err = GetDescriptionTag(name)
+		case "GetUsers":
+			var us []string
+			us, _, err = GetUsers(name)
+			see(us)
+		case "GetSanitisedUser":
+			var u UserDescription
+			u, _, err = GetSanitisedUser(name, "x", false)
+			see(u)
+		case "UpdateUser":
+			tag, _ := GetUserTag(name, "x", false)
+			err = UpdateUser(name, "x", false, tag, &UserDescription{})
+		case "SetUserPassword":
+			err = SetUserPassword(name, "x", false, Password{Type: "plain", Key: strPtr("changed")})
+		case "SetKeys":
+			err = SetKeys(name, []map[string]any{{"kty": "oct", "alg": "HS256", "k": "AAAA"}})
+		case "DeleteUser":
+			tag, _ := GetUserTag(name, "x", false)
+			err = DeleteUser(name, "x", false, tag)
+		case "UpdateDescription":
+			tag, _ := GetDescriptionTag(name)
+			err = UpdateDescription(name, tag, &Description{DisplayName: "rewritten"})
+		case "DeleteDescription":
+			tag, _ := GetDescriptionTag(name)
+			err = DeleteDescription(name, tag)
+		}
+		if leak != "" {
+			t.Fatalf("C19: %s(%q) returned data read from a file outside the groups directory: %s", fn, name, leak)
+		}
+		if after := outsideHash(); after != before {
+			t.Fatalf("C19: %s(%q) created, modified or deleted a file outside the groups directory", fn, name)
+		}
+		// (these functions sit behind the entry points that validate names -- URL parsing, join, the API router -- and
+		// normalise what they are given: "inside/" or "a/../inside" reads inside.json, inside the directory.  That a
+		// client cannot get such a name this far is asserted at the entry points (url-parsing, confinement,
+		// admitted-usernames); here it is only counted.)
+		c19dRec.ClassIf(!valid && err == nil, "observation_invalid_name_normalised_to_a_file_inside_the_directory")
+		aimed := !valid && strings.Contains(name, "outside")
+		c19dRec.Case(aimed, fn+"|"+name, map[string]any{"function": fn, "name": name, "valid": valid, "failed": err != nil})
+		c19dRec.Class("fn_" + fn)
+		c19dRec.ClassIf(valid, "valid_name")
+		c19dRec.ClassIf(valid && err == nil, "valid_name_succeeded")
+	})
+}
+
+func strPtr(s string) *string { return &s }
